@@ -497,7 +497,7 @@ func c10a(c *Ctx) {
 						v := c.term(fn, st.Val)
 						if strings.HasPrefix(v, "builtin:append(") && strings.Contains(v, ".Args") {
 							es := appendElems(st.Val)
-							if len(es) == 1 && c.term(fn, es[0]) == "strings.Join("+c.term(fn, argPhi)+`," ")` {
+							if len(es) == 1 && strings.HasPrefix(c.term(fn, es[0]), "strings.Join("+c.term(fn, argPhi)+`," ")`) {
 								what = "close"
 							}
 						}
@@ -546,7 +546,7 @@ func c10a(c *Ctx) {
 		}
 		must := c.mustLits(fn, st.Block())
 		es := appendElems(st.Val)
-		if len(es) == 1 && c.term(fn, es[0]) == "strings.Join("+c.term(fn, argPhi)+`," ")` && hasLit(must, "+(0 < builtin:len("+c.term(fn, argPhi)+"))") {
+		if len(es) == 1 && strings.HasPrefix(c.term(fn, es[0]), "strings.Join("+c.term(fn, argPhi)+`," ")`) && hasLit(must, "+(0 < builtin:len("+c.term(fn, argPhi)+"))") {
 			flushed = true
 		}
 	}
